@@ -8,3 +8,8 @@ add("C01", "fault_enumeration",
     "For every token reachable by real API histories (both algorithms in every position, signature versions 0/1, first/third-party, sealed/unsealed) every single-field mutation, splice with every value of its partner tokens, block delete/duplicate/transpose/insert, proof operator, signature-algebra operator (ECDSA s-negation, DER re-encodings, ed25519 S+L, key re-encodings), wrong root and (per class) every bit flip / deletion / truncation is presented to the real loaders; thorough adds an exhaustive recombination search over pairs of tokens. Oracle: refused, or exactly the same signed content (or exactly another honestly issued token).",
     "Cryptographic hardness assumed; only recombinations/transformations of honestly produced material are enumerated; bound = corpus depth (quick 1, thorough 2 ops after build).",
     "DESIGN.md §3 C01")
+add("C04", "model_checking",
+    "bounded-exhaustive enumeration of scope configurations (full product for n<=2 blocks, <=2 deviations for n=3) with a differential oracle: reference Datalog interpreter bound to the conformance samples",
+    "Every program of the scope matrix (each block first/third-party with a fact, a rule and a check of each kind with 1-2 alternatives; authorizer fact, rule, check, ordered allow/deny policies; every scope position enumerated) is authorized by the real code and by the reference interpreter R-dl; decisions (policy index, ordered failed-check list), per-origin worlds and query/query_all results must be equal. R-dl must first reproduce every validation of samples.json.",
+    "R-dl (Appendix A of DESIGN.md) is the definition of the semantics; error-free programs, non-binding limits; world read through print_world + parser.",
+    "DESIGN.md §3 C04")
